@@ -8,7 +8,7 @@ from vlib.workers import WorkerDied, WorkerSet
 PROPERTY = "C15"
 LEVEL = "exploration"
 INTERPS = ["3.12"]
-RULE = ("(Half of the chains are made of greenlet subclasses that define a truth value of their own, always false / always true.) Greenlet parent chains of 1..5 greenlets (each the child of the previous) with call depth 0..4 inside each, plus an "
+RULE = ("(Every chain also has a started, suspended greenlet whose run callable is implemented in C - no Python frame at all: no frames, no error. Portal given a coroutine-like object, truthy or falsy, instead of a coroutine: the stack ends with that object as leaf.) (Half of the chains are made of greenlet subclasses that define a truth value of their own, always false / always true.) Greenlet parent chains of 1..5 greenlets (each the child of the previous) with call depth 0..4 inside each, plus an "
         "unrelated suspended greenlet, an unstarted and a dead one; every greenlet is extracted from the main greenlet, from "
         "inside itself (current), from its child, from a deeper descendant and from the unrelated greenlet's point of view; a "
         "greenlet running in another thread. Oracle: a shadow call log per greenlet - suspended: exactly its own frames from "
@@ -72,6 +72,13 @@ def shard(arg):
                           ["greenback", "greenback.portal.bestow"])
                 if v:
                     out.violation(v[0]["desc"], case, "3.12", obs=v[0].get("obs"))
+            if depth == 0:
+                for portal in ("run_wrapped_truthy", "run_wrapped_falsy"):
+                    case = {"greenback_depth": 0, "portal": portal}
+                    v = check(ws, {"op": "green.greenback", "depth": 0, "portal": portal}, out, case, True,
+                              ["greenback", "greenback.portal." + portal])
+                    if v:
+                        out.violation(v[0]["desc"], case, "3.12", obs=v[0].get("obs"))
             for portal in ("run", "run_sync"):
                 # how the task got its portal: ensure_portal() (above), with_portal_run(async fn), with_portal_run_sync(fn)
                 case = {"greenback_depth": depth, "portal": portal}
